@@ -1167,7 +1167,6 @@ func (w *World) lenIntervalAtEdge(fn *ssa.Function, v ssa.Value, a, b *ssa.Basic
 	return res
 }
 
-
 // phiEdgeExcluded: alternative i of φ x cannot be the value at site, because every path from the φ's
 // block to the site takes a nil / non-nil edge on a sibling φ y of the same block whose alternative i
 // is a constant nil (or is known non-nil) the other way round.
